@@ -77,6 +77,11 @@ def c01(ctx):
                     kind = t.split("::")[-1]
                     for k in ((1, 2, 3, 4) if ctx.tier == "quick" else (1, 2, 3, 4, 5, 6)):
                         NL.stream_definitions(ctx, db, r[0], k, NL.defs_moments(kind), min_k={"sample_variance": 2, "variance_of_mean": 2, "error": 2})
+                    # the observation points of C01 include Estimate::estimate, and "added one at a time" streams may
+                    # start from a collected (possibly empty) estimator: both are exactly the headline accessor / the add loop
+                    import forward_rules as FW
+                    FW.r_estimate_headline(ctx, db, r[0])
+                    FW.r_forward_ingest(ctx, db, r[0], max_items=2)
     ctx.floor("Mean/Variance analysed over cfgs", n, 4)
 
 
@@ -328,6 +333,8 @@ def c07(ctx):
     ctx.floor("(n, p) grid cases of the small-sample quantile", n, 36)
     # the small states quantile() is analysed on are exactly what add builds from 1..4 observations
     Q.r_count_small(ctx, db, e, roles)
+    # ... from `new(p)`; an estimator that concatenate! builds through `Default` starts from the same state (p = 0.5)
+    c05_default(ctx, db, e)
 
 
 def c15(ctx):
@@ -597,7 +604,24 @@ def c10(ctx):
         e = Est(db, t)
         if e.exists():
             R.r_sentinel(ctx, db, e, kind, only=("sample_variance", "variance_of_mean", "error", "error_mean"))
+    # "for every finite sequence": the sequence may arrive through extend / collect (by value or by reference)
+    # and, with the rayon feature, through a parallel collect — each must be add in a loop / fold(add).reduce(merge)
+    import forward_rules as FW
+    ing = 0
+    for t in [t for t, _ in fam] + [t for t, _ in moment_types(ctx, db)]:
+        e = Est(db, t)
+        if e.exists() and t in INGEST_TYPES:
+            ing += 1
+            FW.r_forward_ingest(ctx, db, e, max_items=2,
+                                state_assume=R.weights_assumer(db, e, False) if t.endswith("WeightedMeanWithError") else None)
+    dba = ctx.db("A")
+    for t in ("moments::Variance", "moments::Kurtosis", "Moments4", "m5::M5"):
+        e = Est(dba, t)
+        if e.exists():
+            ing += 1
+            FW.r_rayon(ctx, dba, e)
     ctx.floor("types with bias-corrected statistics analysed", n, 8)
+    ctx.floor("ingestion paths of those types analysed", ing, 8)
 
 
 def weighted_defs(kind):
@@ -713,11 +737,14 @@ def c17(ctx):
         if kw.get("pair"):
             N.r_convex(ctx, db, e, scen, N.mean_fields(scen, ("mean_x",)), axis_params=(0,), label="X")
             N.r_convex(ctx, db, e, scen, N.mean_fields(scen, ("mean_y",)), axis_params=(1,), label="Y")
+            N.r_underflow(ctx, db, e, scen, N.mean_fields(scen, ("mean_x",)), axis_params=(0,), label="X")
+            N.r_underflow(ctx, db, e, scen, N.mean_fields(scen, ("mean_y",)), axis_params=(1,), label="Y")
             N.r_shift(ctx, db, e, scen, N.mean_fields(scen, ("mean_x",)), axis_params=(0,), label="X")
             N.r_shift(ctx, db, e, scen, N.mean_fields(scen, ("mean_y",)), axis_params=(1,), label="Y")
             N.r_shift(ctx, db, e, scen, N.mean_fields(scen, ("mean_x", "mean_y")), axis_params=(0, 1), label="X and Y jointly")
         else:
             N.r_convex(ctx, db, e, scen, N.mean_fields(scen), weighted=kw.get("weighted", False))
+            N.r_underflow(ctx, db, e, scen, N.mean_fields(scen))
             N.r_shift(ctx, db, e, scen, N.mean_fields(scen))
         if kw.get("weighted"):
             # "contributing observation": a zero-weight observation must be invisible to the weighted mean
@@ -734,6 +761,7 @@ def c17(ctx):
         scen["contracts"] = moment_contracts(N_)
         N.r_sign(ctx, db, e, scen)
         N.r_convex(ctx, db, e, scen, N.mean_fields(scen))
+        N.r_underflow(ctx, db, e, scen, N.mean_fields(scen))
     import hist_rules as H
     for e, ln, consts in hist_types(ctx, db):
         if ln <= 4:
@@ -856,12 +884,21 @@ PROPS["C02"]["explanation"] += (" The merge code itself is also held to the nume
                                  "common offset to a power > 1, i.e. no recombination through raw moments; R-MAG value box).")
 PROPS["C19"]["explanation"] += " The merge reached by reduce is held to R-DIM/R-DIV/R-SHIFT/R-MAG as in C02 (cancellation-free merge)."
 PROPS["C07"]["explanation"] += " The analysed small states are exactly what add() builds: each of the first adds stores the observation as given in the next slot and increments the count once (R-COUNT/R-P2 small-add)."
-PROPS["C10"]["explanation"] += " The n of the formulas is the number of observations: R-COUNT for add and merge of every type involved."
+PROPS["C10"]["explanation"] += (" The n of the formulas is the number of observations: R-COUNT for add and merge of every type involved. The sequence may arrive "
+                                 "through extend/collect by value or by reference (R-FORWARD: exactly add in a loop from the current state) or a rayon collect (R-RAYON).")
+PROPS["C07"]["explanation"] += " Default::default() is new(0.5) field by field (the state concatenate! starts from)."
+PROPS["C01"]["explanation"] += (" Estimate::estimate returns the headline statistic, and extend/collect (f64 and &f64) are add in a loop from the current state, "
+                                 "uniformly in the item position (R-FORWARD).")
+PROPS["C09"]["explanation"] += " No inherent method shadows a trait method of the same name with a different body (R-SIB inherent-vs-trait)."
+PROPS["C17"]["explanation"] += (" R-UNDERFLOW: the range clause has no absolute slack (denormals are in the domain), so the new mean of add/merge may contain at most one "
+                                 "operation that can round a subnormal (a product with a non-integer, a quotient), at the root or as the increment of the stored mean, "
+                                 "where rounding is monotone; sums and products with integer counts are exact there. Two open findings: the weighted merges.")
 PROPS["C13"]["explanation"] += (" Every Iterator method a crate-local iterator overrides besides next (nth, size_hint, count, last) is compared with the default built "
                                  "from next for every prefix and argument (R-SIB); today there are no overrides.")
 for _p in PROPS:
     PROPS[_p]["explanation"] += (" Functions of the anchored files whose body differs under another cargo feature configuration (std; serde+rayon+nightly; none) "
-                                 "are re-analysed under that configuration (R-CFG). An obligation none of whose instances can be decided fails closed (FLOOR).")
+                                 "are re-analysed under that configuration (R-CFG). Instance-count floors and an analysis that cannot complete fail closed (FLOOR); "
+                                 "an idiom the evaluator has no model for is reported INCONCLUSIVE and listed in the evidence, with wall-clock budgets per path and per exploration.")
 
 for _pid in L0_FLOORS:
     PROPS[_pid]["run"] = with_law_floors(_pid, PROPS[_pid]["run"])
